@@ -77,6 +77,9 @@ func c08CutRun(c c07Case) Verdict {
 		c.Cut = len(b.stream)
 	}
 	o := runCut(b, c.Conv, c.Cut, c.Fault, harness.Config{}, harness.Script{})
+	if o.deadlock != "" {
+		return failf("deadlock", "stream cut at %d (%s): a goroutine serving the connection never finishes:\n%s", c.Cut, c.Fault, trimTo(o.deadlock, 2500))
+	}
 	if o.incon != "" {
 		return Verdict{Inconclusive: o.incon}
 	}
@@ -228,6 +231,9 @@ func c08Play(c c08CloseCase, withSuffix bool) c08Obs {
 	_, fin := w.Finish()
 	if !fin {
 		o.incon = "watchdog while finishing"
+		if w.Deadlock != "" {
+			o.incon = "DEADLOCK:" + w.Deadlock
+		}
 		return o
 	}
 	o.out = w.Out
@@ -246,10 +252,18 @@ func c08Play(c c08CloseCase, withSuffix bool) c08Obs {
 
 func c08CloseRun(c c08CloseCase) Verdict {
 	base := c08Play(c, false)
+	for _, o := range []c08Obs{base} {
+		if strings.HasPrefix(o.incon, "DEADLOCK:") {
+			return failf("deadlock", "close reason %s: a goroutine serving the connection never finishes:\n%s", c.Reason, trimTo(o.incon[9:], 2500))
+		}
+	}
 	if base.incon != "" {
 		return Verdict{Inconclusive: "run without suffix: " + base.incon}
 	}
 	with := c08Play(c, true)
+	if strings.HasPrefix(with.incon, "DEADLOCK:") {
+		return failf("deadlock", "close reason %s with suffix %q: a goroutine serving the connection never finishes:\n%s", c.Reason, c.Suffix, trimTo(with.incon[9:], 2500))
+	}
 	if with.incon != "" {
 		return Verdict{Inconclusive: "run with suffix: " + with.incon}
 	}
@@ -400,7 +414,7 @@ func c08TLSRun(c c08TLSCase) Verdict {
 	}
 	_, fin := w.Finish()
 	if !fin {
-		return Verdict{Inconclusive: "watchdog while finishing"}
+		return finishFail(w)
 	}
 	v := Verdict{NonTrivial: true, Classes: []string{"starttls_replacement"}}
 	if c.GateStart {
